@@ -37,7 +37,9 @@ _add(
     " functional.py (scale primitives -> their forward factor) divided by a frozen reference program (the PyTorch op with"
     " the documented mult temperature) simplifies to a positive expression free of tensor symbols and op applications"
     " (==1 for losses/norms/embedding); every scale factor is tensor-value independent (taint); no in-place effect on"
-    " an argument alias; every parameter is read or rejected; docs._validate raises for non-default unsupported args.",
+    " an argument alias; every parameter is read or rejected; the docstring decorators, applied to probe objects, raise for"
+    " non-default unsupported args; the result's dtype typestate (out-of-place promotion vs in-place receiver dtype) equals"
+    " that of the reference program. Schemas include degenerate sizes (pointwise conv, cross-attention, single-affine norms).",
     TRUST + " Reference programs in usa/rules/c01.py state what each function mirrors. dtype/shape preservation follows from float x Tensor semantics.",
     AI + " + taint / ownership domains + sympy ratio with uninterpreted reference ops",
 )
@@ -95,7 +97,8 @@ _add(
     "C10",
     "Static, all sizes/depths: case enumeration (rule x tag x ndim 1..4 x depth None/symbolic) of lr_scale_func_adam /"
     " lr_scale_func_sgd compared with the u-muP factor table; exhaustiveness and error paths; scaled_parameters stores"
-    " group-or-global lr x factor for float and tensor lr; SGD/Adam/AdamW wiring of rule and options.",
+    " group-or-global lr x factor for float and tensor lr (incl. one-shot iterables, equal shapes with different depths);"
+    " SGD/Adam/AdamW hand scaled_parameters a rule that is extensionally the table's rule, and the options.",
     TRUST,
     AI + " with case schemas + frozen factor table",
 )
@@ -103,7 +106,8 @@ _add(
     "C12",
     "Static cross-file product law: out_scale(functional op under the module's default / None constraint) x Adam factor(tag"
     " set at the module's Parameter site, ndim, depth) x fan-in count == depth^-1/2 for Linear, LinearReadout, Conv1d with"
-    " all widths/kernel/depth symbolic.",
+    " all widths/kernel/depth symbolic; a group configured with eps=0 / weight_decay=0 keeps exactly these settings; depth"
+    " containers tag every layer (frozen ones included) with the number of layers.",
     TRUST + " Adam's first step with eps=0 is lr*sign(g) (assumption).",
     AI + " across functional.py/_modules.py/optim.py + sympy identity",
 )
@@ -126,7 +130,9 @@ _add(
     " _parameter_deepcopy, _rebuild_parameter_with_state) is shown by abstract evaluation to re-establish the whole"
     " invariant {mup_type, mup_scaling_depth, instance __deepcopy__, instance __reduce_ex__ bound to the new object}; the"
     " pickled state filters exactly the two hooks and keeps the tags; reduce rebuilds through the library's function;"
-    " has_parameter_data reads only the tags; apply_transform copies via copy.deepcopy. Holds for histories of any length.",
+    " has_parameter_data reads only the tags; apply_transform copies via copy.deepcopy (which goes through the instance hook);"
+    " unit_scale on a module holding tagged parameters keeps tags and hooks; no public transform calls a converting /"
+    " freezing method on its working copy. Pickling is run with symbolic and concrete (incl. None) tag values.",
     TRUST + " nn.Parameter.__deepcopy__/torch._utils rebuild produce parameters with only the shipped state; .to/.half/load_state_dict keep object identity (torch default).",
     AIX + " (producer-closure / typestate of the tag invariant)",
 )
@@ -136,9 +142,11 @@ _add(
     " allowed-untagged, tensor lr, independent decay on/off, opaque lr_scale_func): one output group per parameter in order,"
     " extra keys carried by identity, caller's dicts/lists unchanged, tensor lr cloned per parameter and never modified in"
     " place, stored decay == group decay / float(the stored scaled lr) (lr x wd == requested decay) or passed through."
-    " A syntactic loop-discipline rule (no break/continue/return, one unconditional append) extends it to unbounded inputs.",
+    " Inputs include one-shot iterables, frozen parameters, falsy option values, a group mixing untagged and tagged"
+    " parameters. Bounded in the length of the lists (the earlier syntactic loop-shape rule was removed: it fired on"
+    " behaviour-preserving refactorings).",
     TRUST + " One optimizer step multiplying parameters by (1 - lr*wd) is PyTorch optimizer semantics, not decided.",
-    AIX + " + syntactic loop-discipline rule",
+    AIX + " on symbolic group lists",
 )
 _add(
     "C13",
@@ -163,11 +171,14 @@ _add(
 )
 _add(
     "C15",
-    "Static: straight-through autograd functions are value/gradient identities on the untouched pass; each wrapper of"
-    " _replacement_map equals (term equality) quantise_fwd(tensor operands only) -> the key op with all remaining"
-    " arguments -> quantise_bwd, formats from the 4th/5th parameter; tuple transport restores every field quantise reads;"
-    " the argument splice binds positional / omitted / keyword forms to the wrapper signature with each argument in its"
-    " role; the backend rewrites exactly call_function nodes in the map (abstract fx nodes), lints; simulate_fp8 = E4M3/E5M2.",
+    "Static: straight-through autograd functions are value/gradient identities on the untouched pass; the backend that"
+    " simulate_format hands to apply_transform is run on abstract FX graphs (no private helper is named): it rewrites"
+    " exactly the linear / attention calls (plain and unit-scaled), each to a callable whose dataflow term equals"
+    " quantise_fwd(tensor operands only, once per operand even when aliased) -> the op with all remaining arguments ->"
+    " quantise_bwd; the rewritten call binds positional / omitted / keyword forms to the signature a caller sees with each"
+    " argument in its role and format_to_tuple(fwd), format_to_tuple(bwd) in that order; tuple transport restores every"
+    " field quantise reads (found by recording field reads); statement nodes survive; lint; simulate_fp8 = E4M3/E5M2; a"
+    " torch.nn root module is entered through a library function (else TorchDynamo captures nothing).",
     TRUST + " What TorchDynamo captures and bit-exactness under a lossless format are not decided.",
     AIX + " + abstract fx node model + signature binding",
 )
@@ -178,7 +189,9 @@ _add(
     " attention + user replacement precedence): the unit-scaling backend (incl. utils.replace_node_with_function) is"
     " abstractly executed on an fx model and its result compared, as an unfolded dataflow term, with an independent"
     " reference rewriter written from the User-Guide recipe; every rewritten call must bind; torch_map is evaluated"
-    " statically from the module namespace and torch name tables; unit_scale() re-initialises and reorders the copy.",
+    " statically from the module namespace and torch name tables; unit_scale() re-initialises and reorders the copy; the"
+    " call forms of torch.nn's own wrapper modules (read from the installed sources) bind to the unit-scaled counterparts;"
+    " the global torch_map and the caller's replace mapping are unchanged by a backend run.",
     TRUST + " The fx contract is modelled in usa/fxmodel.py; Dynamo-captured graphs are not decided; graph shapes are a finite covering set.",
     AIX + " (abstract fx graph model) vs reference rewriter",
 )
@@ -188,7 +201,9 @@ _add(
     " stores land on the copy, input attributes and backend list unchanged, result.backends = old + [new] as its own list"
     " which the composite backend closes over; composition applies each backend once in order; _order_backends puts the"
     " backend unit_scale installed before the one simulate_format installed for every order (name coupling through the"
-    " real closures' __qualname__); both user orders end [unit, quant]; rerun/base_forward cache flags; mutable defaults never mutated.",
+    " real closures' __qualname__); both user orders end [unit, quant]; rerun/base_forward cache flags, Dynamo reset before"
+    " re-tracing; every public entry point returns a copy (also for lossless formats); a torch.nn root is entered through a"
+    " library function; mutable defaults never mutated.",
     TRUST + " Equality of outputs across orders, storage independence at run time and Dynamo caching are not decided.",
     AIX + " (ownership / copy-before-write, provenance of backend objects)",
 )
@@ -197,7 +212,9 @@ _add(
     "Static: tracker autograd functions return their argument (or clone) in both passes and record metrics from the"
     " forward resp. backward argument; both interpreters' run_node return gamma(float-tensor predicate(out) ?"
     " tracker.apply(out) : out) for out = super().run_node(n); each Metrics field equals its definition as a method chain;"
-    " the requires-grad shim only calls requires_grad_ under the float predicate and delegates unchanged.",
+    " the requires-grad shim only calls requires_grad_ under the float predicate and delegates unchanged; the wrap decision is"
+    " a truth table over every condition the code consults and depends on the float-tensor predicate alone; other"
+    " Interpreter hook overrides hand on super()'s value itself; a recorded 0 is printed as a number.",
     TRUST + " Autograd sums consumer gradients before a custom function's backward; bit-identity under Dynamo not decided.",
     AIX + " + method-chain normal forms",
 )
@@ -207,7 +224,8 @@ _add(
     " positionally, by keyword, inside a list, inside a nested tuple and in the output tuple: no raise under the fx contract"
     " (erase_node raises while users remain), surviving nodes/order/args == an independently computed expectation (bypass"
     " to the single float input or cut), copying helpers leave the input unchanged, selective helper in place, caller's"
-    " rtol reaches isclose, only mean|x| compared, one-sided gradients differ.",
+    " rtol reaches isclose (purely relative), only mean|x| compared, the same-scale predicate decided through the public helper"
+    " on two-node graphs, chains of three same-scale nodes, the copying helpers chained.",
     TRUST + " fx contract as modelled in usa/fxmodel.py; what track_scales records at run time is not decided.",
     AIX + " (abstract fx graph model) vs reference expectation",
 )
